@@ -19,7 +19,9 @@ Three clauses:
 3. *cached type queries agree with a recomputation* — for ALL histories of queries and graph updates on the repaired
    `add_subclass_edge` (`cached_answers_current`, `cached_agree_with_recomputation`); the code as found serves stale
    answers (`memo_stale_cex`) unless all edges precede all queries (`memo_fresh_if_no_late_edges`); even there a
-   memoised `True` never becomes wrong (`memo_monotone`, `subtype_monotone_in_edges`).
+   memoised `True` never becomes wrong (`memo_monotone`, `subtype_monotone_in_edges`).  The providers' look-ups are
+   such memoised queries (`provider_lookups_current`: generators AND stored distances are current after any history);
+   flushing only for edges between unconnected classes is refuted by a shortcut edge (`skip_flush_when_reachable_cex`).
 4. (clause 1 along histories) run-time return-type observations (`ModuleTestCluster.update_return_type`) re-file a
    generator under its new type: for ALL histories of additions, observations and late edges every generator sits
    only in the bucket of its CURRENT generated type (`updates_keep_table_consistent`,
@@ -239,6 +241,62 @@ theorem recursion_through_fresh_memo (g : Graph) (anyD : Nat) (u : Bool) (lookB 
 
 example : (run 30 false ⟨gC, []⟩ [.ask (.maybe cSub cBase), .ask (.dist cBase cSub), .edge 11 10,
     .ask (.subclass 10 11), .ask (.maybe cSub cBase)]).2 = [.b true, .d (some 1), .b true, .b true] := by decide
+
+/-! ### 3b. the providers' look-ups are memoised type queries; EVERY new edge must flush
+
+`GeneratorProvider._get_generators_for` asks the memoised `subtype_distance(T, S)` for every bucket `S` and stores the
+answer in the `_Generator` it hands out (rank / fitness), `RandomGeneratorProvider._get_generators_for` asks the memoised
+`is_maybe_subtype(S, T)`.  After ANY history both look-ups, run through the memo, give what a recomputation on the
+final graph gives (`provider_lookups_current`).  This needs the flush on EVERY edge: skipping it for an edge whose end
+points are already connected (a repeated edge, a shortcut `A → C` beside `A → B → C`) keeps the boolean queries right but
+serves a stale shortest-path length (`skip_flush_when_reachable_cex`). -/
+
+/-- After ANY history of memoised queries and (repaired) edge insertions, a look-up of either provider that goes through
+the memo hands out exactly the generators — and, for the heuristic provider, exactly the stored distances — of a
+recomputation on the final type graph, and leaves a memo behind that agrees with the graph (so look-ups may be
+interleaved with the history at will). -/
+theorem provider_lookups_current (anyD : Nat) (g : Graph) (ops : List Op) (prims : List Cls) (tbl : Table) (T : Ty) :
+    (offeredHeuristicM anyD prims tbl (run anyD false ⟨g, []⟩ ops).1 T).2 =
+      offeredHeuristic (finalGraph g ops) anyD prims tbl T ∧
+    (offeredRandomM anyD tbl (run anyD false ⟨g, []⟩ ops).1 T).2 = offeredRandom (finalGraph g ops) tbl T ∧
+    Fresh anyD (offeredHeuristicM anyD prims tbl (run anyD false ⟨g, []⟩ ops).1 T).1 ∧
+    Fresh anyD (offeredRandomM anyD tbl (run anyD false ⟨g, []⟩ ops).1 T).1 := by
+  have hf := run_fresh anyD ops _ (fresh_empty anyD g)
+  have hh := offeredHeuristicM_fresh anyD prims tbl _ T hf
+  have hr := offeredRandomM_fresh anyD tbl _ T hf
+  rw [run_graph] at hh hr
+  exact ⟨hh.1, hr.1, hh.2.1, hr.2.1⟩
+
+/-- classes `0 A, 1 B(A), 2 C(B), 3 list` (one hard-coded type parameter) -/
+def gChain : Graph := ofClassTable [(0, []), (1, [0]), (2, [1]), (3, [])] [(3, 1)]
+/-- queries before and after the shortcut edge `A → C` (`class C(B, A)`): two distances, one boolean query -/
+def histShortcut : List Op :=
+  [.ask (.dist (.inst 0 []) (.inst 2 [])), .ask (.dist (.inst 3 [.inst 0 []]) (.inst 3 [.inst 2 []])),
+   .ask (.subclass 2 0), .edge 0 2,
+   .ask (.dist (.inst 0 []) (.inst 2 [])), .ask (.dist (.inst 3 [.inst 0 []]) (.inst 3 [.inst 2 []])),
+   .ask (.subclass 2 0)]
+
+/-- Skipping the flush when the sub class is already reachable from the super class: `subtype_distance(A, C)` and
+`subtype_distance(list[A], list[C])`, memoised as 2 before the shortcut edge `A → C`, are still answered 2 afterwards
+(a recomputation on the final graph — and the repaired code — give 1), although `is_subclass(C, A)` stays right; the
+heuristic provider then hands out the constructor of `C` for a requested `A` with the stale distance 2 instead of 1. -/
+theorem skip_flush_when_reachable_cex :
+    (runWith 30 addSubclassEdgeSkipReachable ⟨gChain, []⟩ histShortcut).2 =
+      [.d (some 2), .d (some 2), .b true, .d (some 2), .d (some 2), .b true] ∧
+    expected 30 gChain histShortcut = [.d (some 2), .d (some 2), .b true, .d (some 1), .d (some 1), .b true] ∧
+    (run 30 false ⟨gChain, []⟩ histShortcut).2 = expected 30 gChain histShortcut ∧
+    (offeredHeuristicM 30 [] [(.inst 2 [], [7])]
+      (runWith 30 addSubclassEdgeSkipReachable ⟨gChain, []⟩ histShortcut).1 (.inst 0 [])).2 = [(7, some 2)] ∧
+    offeredHeuristic (finalGraph gChain histShortcut) 30 [] [(.inst 2 [], [7])] (.inst 0 []) = [(7, some 1)] ∧
+    (offeredHeuristicM 30 [] [(.inst 2 [], [7])] (run 30 false ⟨gChain, []⟩ histShortcut).1 (.inst 0 [])).2 =
+      [(7, some 1)] := by decide
+
+/-- a repeated edge and an edge between unconnected classes under the same policy: nothing goes stale (the policy is
+wrong only for shortcuts) -/
+example : (runWith 30 addSubclassEdgeSkipReachable ⟨gChain, []⟩
+    [.ask (.dist (.inst 0 []) (.inst 2 [])), .edge 0 1, .ask (.dist (.inst 0 []) (.inst 2 [])), .edge 3 2,
+     .ask (.subclass 2 3), .ask (.dist (.inst 0 []) (.inst 2 []))]).2 =
+    [.d (some 2), .d (some 2), .b true, .d (some 2)] := by decide
 
 /-! ## 4. run-time return-type observations keep every generator filed under its CURRENT generated type
 
